@@ -20,7 +20,7 @@ import (
 // names the innermost function and the fault line; then one line per active
 // call, innermost first, naming the calling function and the line of the call.
 
-var c20kinds = []string{"call statement", "call inside an expression", "method call", "call from a for body", "call from an if branch", "call from a switch case", "call through a function-typed variable", "self-recursion x3 then call"}
+var c20kinds = []string{"call statement", "call inside an expression", "method call", "call from a for body", "call from an if branch", "call from a switch case", "call through a function-typed variable", "self-recursion x3 then call", "call after a function literal in the same function"}
 
 type c20fault struct {
 	name  string
@@ -55,6 +55,8 @@ type c20prog struct {
 	Fault int   `json:"fault"`
 	Host  int   `json:"host"`
 	Rep   int   `json:"rep,omitempty"` // uniform chain: Word holds one kind, repeated Rep times
+	Pad   int   `json:"pad,omitempty"` // number of unrelated functions declared before the chain (name indexes and line numbers beyond 8 bits)
+	Lit   bool  `json:"lit,omitempty"` // a function literal precedes the fault in the innermost function
 }
 
 func (p c20prog) word() []int {
@@ -100,6 +102,12 @@ func c20render(p c20prog) (src string, entry string, want []c20frame) {
 	emit("\treturn a")
 	emit("}")
 	emit("")
+	for k := 0; k < p.Pad; k++ {
+		emit(fmt.Sprintf("func pad%d(a int) int {", k))
+		emit("\treturn a")
+		emit("}")
+		emit("")
+	}
 	n := len(word)
 	// function i (0..n): i < n calls i+1 using frame kind word[i]; function n holds the fault.
 	// how function i is declared depends on how it is called: word[i-1]
@@ -167,10 +175,22 @@ func c20render(p c20prog) (src string, entry string, want []c20frame) {
 			case 6:
 				emit("\tf := " + name(i+1))
 				callLines[i] = emit("\tx = f()")
+			case 8:
+				emit("\tg := func(a int) int {")
+				emit("\t\treturn a + 1")
+				emit("\t}")
+				emit("\tx = g(x)")
+				callLines[i] = emit("\tx += " + callee)
 			}
 			emit("\treturn x")
 		} else {
 			f := c20faults[p.Fault]
+			if p.Lit {
+				emit("\tlit := func(a int) int {")
+				emit("\t\treturn a * 2")
+				emit("\t}")
+				emit("\tx = lit(x)")
+			}
 			for _, s := range f.setup {
 				emit("\t" + s)
 			}
@@ -299,6 +319,19 @@ func c20progs(thorough bool) []c20prog {
 			}
 		}
 	}
+	// padded programs (400 unrelated functions first) and a function literal before the fault: all words of length <=2
+	for _, w := range words {
+		if len(w) > 2 {
+			continue
+		}
+		for fi, f := range c20faults {
+			hi := 0
+			if f.expr != "" {
+				hi = (fi + len(w)) % len(c20hosts)
+			}
+			out = append(out, c20prog{Word: w, Fault: fi, Host: hi, Pad: 400}, c20prog{Word: w, Fault: fi, Host: hi, Lit: true}, c20prog{Word: w, Fault: fi, Host: hi, Pad: 300, Lit: true})
+		}
+	}
 	// uniform chains of every depth 4..30
 	for k := range c20kinds {
 		for d := 4; d <= 30; d++ {
@@ -313,7 +346,7 @@ func c20progs(thorough bool) []c20prog {
 func c20run(r *report.Run) {
 	thorough := r.Tier == "thorough"
 	progs := c20progs(thorough)
-	r.Rule(fmt.Sprintf("call chains = all words of length <=%d over 8 frame kinds (statement, expression, method, for body, if branch, switch case, function-typed variable, 3-fold self recursion) plus uniform chains of depth 4..30, x 16 fault kinds x 9 statement shapes hosting the fault, x optimizer off/on; non-trivial = chain with at least one frame", map[bool]int{false: 3, true: 4}[thorough]))
+	r.Rule(fmt.Sprintf("call chains = all words of length <=%d over 9 frame kinds (statement, expression, method, for body, if branch, switch case, function-typed variable, 3-fold self recursion, after a function literal) plus uniform chains of depth 4..30, x 16 fault kinds x 9 statement shapes hosting the fault, plus variants with 300-400 unrelated functions declared first (name indexes and line numbers beyond 8 bits) and with a function literal before the fault, x optimizer off/on; non-trivial = chain with at least one frame", map[bool]int{false: 3, true: 4}[thorough]))
 	r.Assume("expected (function, line) sequence known by construction; opcode names and columns in the text are not compared", "VM.Call's synthetic frame has no position and is rightly absent")
 	r.Set("programs", len(progs))
 	results := make([][2]string, len(progs))
